@@ -158,6 +158,7 @@ package logreader
 //@   requires s != nil
 //@   ensures ok ==> v == shardFor(s, key) && v != nil
 //@   ensures ok            // this map is only built by NewShardCache, with a default function
+//@   ensures ok ==> allocated(v) && allocated(v.cache) && allocated(v.cache.buffer)    // whatever a returned object reaches was allocated before the return
 //@   modifies nothing
 
 // Cached.QueryRaftLog. Preconditions are the property's own quantifier: the end of the range is
